@@ -79,6 +79,9 @@ PConfigsC07x ==
         rt \in BOOLEAN, th \in {1, 2}, r \in {2, 3} }
 OutsC07x == {Out("ok", "-", None), Out("exc", T, None), Out("exc", U, None)}
 OutsC07 == {Out("ok", "-", None), Out("exc", T, None), Out("exc", U, None), Out("abort", "-", None)}
+PConfigsC15 ==
+    { [retry |-> rt, rc |-> [RBase EXCEPT !.maxAtt = 2, !.handler = ha, !.bsleep = TRUE],
+       bc |-> BCfg(1, 4, 2)] : rt \in BOOLEAN, ha \in BOOLEAN }
 PConfigsX ==
     { [retry |-> rt, rc |-> [RBase EXCEPT !.abort = ab, !.maxAtt = 2, !.handler = ha],
        bc |-> BCfg(th, 4, 2)] :
